@@ -89,7 +89,7 @@ def setup_wait_pid(it, cfg):
     return {"args": {"pid": pid, "timeout": timeout, "proc_name": Opaque("name")},
             "spec": {"exit_at": exit_at, "exited": exited, "code": code, "sig": sig, "child": child, "now0": now0,
                      "stop": stop, "has_timeout": timeout is not None},
-            "values": [pid, now0, exit_at, exited, code, sig]}
+            "values": [pid, now0, exit_at, exited, code, sig] + ([timeout] if cfg["timeout"] == "some" else [])}
 
 
 def havoc_clock(it, fr):
